@@ -49,6 +49,9 @@ type vf4Env struct {
 	fed     ed25519.PrivateKey
 	base    map[string]string // kind -> compact JWS from the real producer
 	baseAt  time.Time
+	// loader-built deployments: the trusted keys are whatever the real loader made of the configuration
+	fixedKeys bool
+	named     map[string]crypto.Signer // every private key that exists around the configuration, by name
 }
 
 const (
@@ -95,6 +98,9 @@ func vf4Setup(t *testing.T) (*vf4Env, func()) {
 }
 
 func (e *vf4Env) setDeployment(dep string) {
+	if e.fixedKeys {
+		return
+	}
 	switch dep {
 	case "multi":
 		e.state.KeymasterPublicKeys = []crypto.PublicKey{e.realRSA.Public(), e.peer.Public(), e.ed.Public()}
@@ -789,6 +795,14 @@ func TestVerifC04(t *testing.T) {
 			}
 			hdr, _ := vf4b64.DecodeString(strings.Split(e.base[f[1]], ".")[0])
 			io.emit("base %s wire=%s hdr=%s issuer=%s", f[1], hex.EncodeToString(pl), hex.EncodeToString(hdr), vfHex(e.state.idpGetIssuer()))
+			continue
+		}
+		if len(f) == 6 && f[0] == "cfg" {
+			io.emit("%s", vf4CfgOp(t, f))
+			continue
+		}
+		if len(f) == 3 && f[0] == "seq" {
+			io.emit("%s", e.vf4SeqOp(f))
 			continue
 		}
 		if len(f) < 7 || f[0] != "op" {
